@@ -190,3 +190,82 @@ def bounds_check(sess, inst, ev, sols):
         if missing:
             viol.append((p, rl, missing[:8]))
     return viol, info
+
+
+def pointwise_sampled(sess, inst, ev, seeds_env, rng, n=120):
+    """M2 beyond the bounded domain: compare reference and library formula on sampled points - the given seed
+    assignments (returned solution, planted witness) and single/double-leaf perturbations of them (boundary values
+    first).  Returns dict(status, mismatches, points)."""
+    call = ev["call"]
+    prog = sess.prog
+    recs = ev.get("records") or []
+    out = {"status": "ok", "mismatches": [], "points": 0, "batches": 0, "sat_calls": 0}
+    if len(recs) != 1:
+        out["status"] = "no-single-record(%d)" % len(recs)
+        return out
+    if call.has_random_size():
+        out["status"] = "random-size-list"
+        return out
+    rec = recs[0]
+    lm = leaf_model_map(sess, inst, call, ev)
+    paths = [p for p, _ in call.rand_leaves]
+    types = dict(call.rand_leaves)
+    batches = []
+    for b in rec.batches:
+        bl = []
+        for fm, var, w, s, en in b.vars:
+            if id(fm) not in lm:
+                out["status"] = "unmapped-solver-variable"
+                return out
+            bl.append((fm, lm[id(fm)][0]))
+        batches.append((b, bl))
+    out["batches"] = len(batches)
+
+    def dom_sample(t):
+        if t[0] == "enum":
+            return rng.choice([m for m, _ in prog["enums"][t[1]]])
+        w, sg = t[1], t[2]
+        lo, hi = (-(1 << (w - 1)), (1 << (w - 1)) - 1) if sg else (0, (1 << w) - 1)
+        c = rng.random()
+        if c < 0.35:
+            return rng.choice([lo, hi, 0, 1, -1 if sg else hi - 1, lo + 1])
+        if c < 0.6:
+            return rng.randint(max(lo, -16), min(hi, 16))
+        return rng.randint(lo, hi)
+    points = []
+    for env in seeds_env:
+        if env is None:
+            continue
+        points.append(dict(env))
+        for _ in range(n // max(1, len(seeds_env))):
+            q = dict(env)
+            for p in rng.sample(paths, min(len(paths), rng.choice([1, 1, 1, 2]))):
+                t = types[p]
+                if t[0] == "int" and rng.random() < 0.4 and isinstance(env[p], int):
+                    w, sg = t[1], t[2]
+                    lo, hi = (-(1 << (w - 1)), (1 << (w - 1)) - 1) if sg else (0, (1 << w) - 1)
+                    q[p] = min(hi, max(lo, env[p] + rng.choice([-2, -1, 1, 2])))
+                else:
+                    q[p] = dom_sample(t)
+            points.append(q)
+    for q in points:
+        try:
+            in_ref = call.holds(q)
+        except R.Corner:
+            continue
+        in_lib = True
+        for b, bl in batches:
+            asg = {id(fm): to_int(prog, types[p], q[p]) for fm, p in bl}
+            out["sat_calls"] += 1
+            if not b.sat_at(asg):
+                in_lib = False
+                break
+        out["points"] += 1
+        if in_ref != in_lib:
+            if len(out["mismatches"]) < 6:
+                out["mismatches"].append(("ref-accepts-lib-rejects" if in_ref else "lib-accepts-ref-rejects",
+                                          {".".join(map(str, p)): v for p, v in q.items()}))
+    out["n_mismatch"] = len(out["mismatches"])
+    if out["mismatches"]:
+        out["status"] = "mismatch"
+    return out
